@@ -233,6 +233,17 @@ static struct chan *lookup_wire(const char *key, void *ctx)
 	}
 }
 
+/* which input callback of a 2-input mux is enabled in the bay (-1: none).  mux->selected is
+ * not used: mux_init leaves it 0 (memset) until the first cb_select although no input
+ * callback is enabled yet. */
+static int enabled_input(struct mux *mux)
+{
+	if (mux->inputs[0].cb->enabled && mux->inputs[1].cb->enabled) return 2;
+	if (mux->inputs[0].cb->enabled) return 0;
+	if (mux->inputs[1].cb->enabled) return 1;
+	return -1;
+}
+
 static void do_wiring(char *args)
 {
 	long b = 0, u = 0, p = 0;
@@ -285,8 +296,8 @@ static void do_wiring(char *args)
 		printf(" ");
 		if (chan_read(&mcpu->breakdown.tri, &v) != 0) v = value_null();
 		print_value(v);
-		printf(" %" PRIi64 " %" PRIi64 " %" PRIi64 " ", sort->values[0],
-				mcpu->breakdown.mux0.selected, mcpu->breakdown.mux1.selected);
+		printf(" %" PRIi64 " %d %d ", sort->values[0],
+				enabled_input(&mcpu->breakdown.mux0), enabled_input(&mcpu->breakdown.mux1));
 		if (chan_read(sort_get_output(sort, 0), &v) != 0) v = value_null();
 		print_value(v);
 	}
